@@ -11,9 +11,11 @@ CONSTANTS
   Byz = {z}
   W <- W4
   Thr = 2
-  Br = 2
-  D = 3
-  MaxNodes = 5
+  Nodes <- ShapeY2
+  ByzMax = TRUE
+  MaxNodes = 4
+  MaxVotes = 4
+  RootVotes = FALSE
   Variant = "asis"
 INVARIANT FinalitySafety
 SYMMETRY Sym
